@@ -253,3 +253,12 @@ func (c *ctx) instant(sec int64, variant int) time.Time {
 		return time.Unix(sec, 0)
 	}
 }
+
+// pickName draws from a list the LIBRARY returned (the advertised suites); a tree under test may return an empty
+// list, which must show in the trace, not crash the generator.
+func (c *ctx) pickName(names []string) string {
+	if len(names) == 0 {
+		return "OCRA-1:HOTP-SHA1-6:QN08"
+	}
+	return names[c.rng.Intn(len(names))]
+}
